@@ -939,7 +939,11 @@ class QvmCpu:
                       expected=a.type,
                       got=b.type)
 
-        result = a.value // b.value
+        # QBASIC truncates the quotient toward zero (Python's //
+        # rounds it down)
+        result = abs(a.value) // abs(b.value)
+        if (a.value < 0) != (b.value < 0):
+            result = -result
         self.push(a.type, result)
 
     def _exec_ijmp(self):
@@ -1107,7 +1111,11 @@ class QvmCpu:
                       expected=a.type,
                       got=b.type)
 
-        result = a.value % b.value
+        # the remainder of the truncated division: it has the sign of
+        # the dividend
+        result = abs(a.value) % abs(b.value)
+        if a.value < 0:
+            result = -result
         self.push(a.type, result)
 
     def _exec_mul(self):
